@@ -76,6 +76,10 @@ def shape_programs():
     P.append(("inline-match", "packet LegA {\n    u32 Px,\n}\npacket LegB {\n    u16 Qty,\n}\npacket Order {\n    u32 Id,\n    Leg {\n        u8 Kind,\n"
               "        match Kind as Detail {\n            1 : LegA,\n            2 : LegB,\n        },\n    },\n}\n"
               "root packet Msg {\n    u16 MsgType,\n    match MsgType as Body {\n        1 : Order,\n    },\n}\n"))
+    # computed fields (length-of, checksum) in both attribute positions and both type spellings, in a flat root packet
+    P.append(("flat-computed-spellings", "root packet Frame {\n    uint16 MsgType,\n    uint32 HeaderCheck @calculatedFrom(\"CRC32\"),\n    u32 SeqNum,\n"
+              "    @calculatedFrom(\"CRC16\") uint16 c2,\n    u16 c3 @calculatedFrom(\"CRC16\"),\n    uint16 len @lengthOf(body),\n    string body,\n"
+              "    char[8] Sender,\n    int64 tail @calculatedFrom(\"X\"),\n    u8 last,\n}\n"))
     P.append(("flat-signed", """root packet Flat {
     i8 a,
     i16 b,
